@@ -285,6 +285,20 @@ def f31_option_value_references_parameter():
         return f"Template('{{A}} {{:b:}}', b=Option('B')) on {o}: validate fails ({v}) although evaluate succeeds ({e}): an option value refers to the template's parameter"
 
 
+def f32_map_conflicting_keys():
+    from labrea import Map
+    from labrea.exceptions import EvaluationError
+    m = Map(Option("A.X"), {"A": Option("XS"), "A.X": Option("YS")})
+    o = {"XS": [1, 2], "YS": [3]}
+    for name in ("explain", "validate", "keys"):
+        try:
+            getattr(m, name)(o)
+        except EvaluationError:
+            pass
+        except Exception as e:  # noqa
+            return f"Map(Option('A.X'), {{'A': ..., 'A.X': ...}}).{name}({o}) fails with {type(e).__name__} ({e}), not an EvaluationError"
+
+
 def scenarios():
     return {k: v for k, v in list(globals().items()) if k.startswith("f") and callable(v) and k[1].isdigit()}
 
